@@ -1,4 +1,4 @@
 #!/bin/bash
-# usage: tools/confirm_queue.sh <workers> C01:1 C01:2 ...   -- confirm seeds in parallel (each in its own scratch worktree)
+# usage: tools/confirm_queue.sh <workers> C01:1 C02:2:/alt/src/dir ...   -- confirm seeds in parallel (each in its own scratch worktree)
 N="$1"; shift
-printf '%s\n' "$@" | xargs -P "$N" -I{} bash -c 'x={}; /verif/tools/confirm_seed.sh "${x%%:*}" "${x##*:}" --tests > /dev/null 2>&1'
+printf '%s\n' "$@" | xargs -P "$N" -I{} bash -c 'x={}; IFS=: read -r id k src <<<"$x"; if [ -n "$src" ]; then /verif/tools/confirm_seed.sh "$id" "$k" --tests "$src"; else /verif/tools/confirm_seed.sh "$id" "$k" --tests; fi > /dev/null 2>&1'
